@@ -53,6 +53,8 @@ struct State {
     last_progress: Instant,
     /// one condvar per logical thread (all used with `Exec::m`): a hand-off wakes only its target
     cvs: Vec<Arc<Condvar>>,
+    /// threads waiting for a lock held elsewhere: re-enabled as soon as another thread takes a step
+    retry: Vec<bool>,
 }
 
 pub struct Exec {
@@ -109,6 +111,17 @@ impl Exec {
 
     /// `voluntary`: the thread offers the baton (a yield); switching away is not a preemption.
     fn schedule_x(&self, g: &mut State, me: usize, label: &'static str, voluntary: bool) {
+        // `me` has just taken a step: threads that wait for a lock held elsewhere may try again
+        // (a thread that is itself only re-trying a lock has made no progress and wakes nobody,
+        // otherwise two waiters would keep waking each other and starve the lock holder)
+        for t in 0..g.st.len() {
+            if !g.retry[me] && t != me && g.retry[t] {
+                g.retry[t] = false;
+                if g.st[t] == St::Blocked {
+                    g.st[t] = St::Enabled;
+                }
+            }
+        }
         let cur_enabled = g.st[me] == St::Enabled;
         let mut opts: Vec<usize> = Vec::new();
         if cur_enabled {
@@ -192,6 +205,28 @@ pub fn point(label: &'static str) {
             // unwinding after an abort / panic: let destructors run freely
             return;
         }
+        e.schedule(&mut g, me, label);
+        e.wake(&g);
+    }
+    e.wait_for_baton(me);
+}
+
+/// The calling thread cannot progress until another thread has taken a step (it found a lock
+/// held by a thread that is suspended inside its critical section): it is disabled until then.
+/// With no other enabled thread this is a deadlock, as it would be for real.
+pub fn wait_for_others(label: &'static str) {
+    let Some((e, me)) = cur_sched() else {
+        std::thread::yield_now();
+        return;
+    };
+    {
+        let mut g = e.m.lock().unwrap();
+        if g.aborted.is_some() {
+            drop(g);
+            resume_unwind(Box::new(AbortExec));
+        }
+        g.st[me] = St::Blocked;
+        g.retry[me] = true;
         e.schedule(&mut g, me, label);
         e.wake(&g);
     }
@@ -363,6 +398,7 @@ pub fn spawn<T: Send + 'static>(f: impl FnOnce() -> T + Send + 'static) -> JoinH
         g.woken.push(false);
         g.joiners.push(vec![]);
         g.cvs.push(Arc::new(Condvar::new()));
+        g.retry.push(false);
         g.st.len() - 1
     };
     let res = start_thread(e.clone(), tid, f);
@@ -414,6 +450,7 @@ pub fn run_one_h(prefix: &[usize], horizon: usize, body: impl FnOnce() + Send + 
             horizon,
             last_progress: Instant::now(),
             cvs: vec![Arc::new(Condvar::new())],
+            retry: vec![false],
         }),
         cv: Condvar::new(),
     });
@@ -630,6 +667,9 @@ impl verif_hooks::Handler for Bridge {
     }
     fn spawn(&self, task: verif_hooks::BoxedTask) {
         let _ = spawn(move || block_on(task));
+    }
+    fn wait_for_others(&self, label: &'static str) {
+        wait_for_others(label)
     }
 }
 
